@@ -56,7 +56,7 @@ class KeyGen:
         os.urandom = self.real
 
 
-def build(rng, tmp, secure_method):
+def build(rng, tmp, secure_method, force=False):
     from cincoconfig import Schema, StringField, IntField, ListField, DictField, BytesField, SecureField, BoolField, Field
     s = Schema(dynamic=True)
     s.name = StringField(default="n%d" % rng.randint(0, 99))
@@ -80,15 +80,15 @@ def build(rng, tmp, secure_method):
     s.site.port = IntField(default=5432, env="CINCO_T_C19_SITE_PORT")
     cfg = s()
     # (some configurations hold exactly one secret: the key file is then used once during a save)
-    cfg.site.accounts = [{"user": "u%d" % j, "password": "pw-%d-%d" % (j, rng.randint(0, 9999))} for j in range(rng.randint(1, 3) if rng.random() < 0.6 else 0)]
+    cfg.site.accounts = [{"user": "u%d" % j, "password": "pw-%d-%d" % (j, rng.randint(0, 9999))} for j in range(rng.randint(1, 3) if rng.random() < 0.6 and not force else 0)]
     cfg.mode = "debug"
     cfg.site.port = rng.randint(6000, 6999)
     kp = os.path.join(tmp, "key-%d" % rng.randint(0, 10 ** 9))
     key = bytearray(rng.getrandbits(8) for _ in range(32))
-    if rng.random() < 0.3:
+    if rng.random() < 0.3 or force:
         # any 32 bytes are a key: also ones that begin or end with what text tools call whitespace
         key[rng.choice([0, -1])] = rng.choice(b" \t\n\r\x0b\x0c")
-    if rng.random() < 0.4:
+    if rng.random() < 0.4 or force:
         GENERATED[kp] = bytes(key)          # no key file yet: the library creates it during the save (run() makes os.urandom hand out this key)
     else:
         with open(kp, "wb") as f:
@@ -119,7 +119,8 @@ def run(ctx):
     for it in range(n):
         for fmt in FORMATS:
             method = rng.choice(["xor", "aes", "best"])
-            schema, cfg, kp = build(rng, tmp, method)
+            # (the first round always has: one secret, a key file the library creates during the save, a key with a whitespace byte at an edge)
+            schema, cfg, kp = build(rng, tmp, method, force=(it == 0))
             dest = os.path.join(tmp, "dest-%d-%s" % (it, fmt))
             # ---- success: bytes written == what dumps returned; loads back
             captured = []
